@@ -109,6 +109,10 @@ def explore(ctx, depth):
     core = docrun.make_cases(ctx, n, kern_only=True, profiles=('core',), split_depth=1, max_measures=4)
     core += docrun.make_cases(ctx, 0, docs=[gen.nested_split_doc(ctx.rng) for _ in range(n)])
     frontier = docrun.make_cases(ctx, n, kern_only=False, profiles=('free', 'core'), split_depth=2, max_measures=4)
+    # texts outside the generator's grammar (late `**` cells give columns of different depth: the backwards walk of the preamble meets the
+    # root's missing parent): correspondence with the model on every pair of bounds
+    docrun.raw_range_tie(ctx, docrun.raw_cases(ctx, [c.adoc for c in frontier[:6 if depth == 'quick' else 60]], kinds=('plus', 'late-header', 'plus-unopened', 'blank')),
+                         encs=('kern', 'bekern'))
     for stream, cases in (('core', core), ('frontier', frontier)):
         exps = []
         for case in cases:
